@@ -3,7 +3,7 @@ import itertools
 import os
 import random
 
-from .common import signature, detail, case_of, account_build
+from .common import FAULT_ERRNOS, signature, detail, case_of, account_build
 from ..env import Scratch
 from ..world import World
 from ..replay import build_kwargs
@@ -204,7 +204,7 @@ def run_combo(sh, anc, tgt, mode, catch, rng, fault_all=True):
                 # renames into the backup area that happen after setup (none today) would not be setup faults
                 w.restore(tok, keep=True)
                 opts = {'fault': {'k': k, 'kinds': ['os.mkdir', 'os.rename'], 'phases': ['root'],
-                                  'errno': rng.choice(['EIO', 'ENOSPC', 'EACCES']),
+                                  'errno': rng.choice(FAULT_ERRNOS),
                                   'cls': rng.choice(['OSError', 'PermissionError']), 'expect_fail': False},
                         'model_setup_fail': [target]}
                 kw = build_kwargs(opts, w)
